@@ -90,7 +90,26 @@ def c13_extra(spec, scripts, real, variant, tier):
                               dict(solo_script=solo, solo_trace_on_crate=tr,
                                    projection_of_two_subscription_run=proj,
                                    two_subscription_trace=real[n])))
-    return viols, dict(projection_checks=len(solos), projection_failures=len(viols))
+    # every subscription must run its OWN copy of a user closure (a closure that carries state by value gets a
+    # pristine copy per subscription): the harness gives every clone of its closures a new identity and reports
+    # the copies that ran under two subscriptions
+    mine = [s for s in scripts if "subs=2" in s and header_op(s) in ("map", "filter", "scan")]
+    shared = []
+    for part in parallel_map(
+            lambda ch: [l.strip() for l in sh([BIN + "/cbharness-plain", "seq"], inp="\n".join(ch) + "\n",
+                                              env={"CB_EVALS": "1"}).stdout.split("\n")][:len(ch)] if ch else [],
+            chunked(mine, 16)):
+        shared += part
+    nshared = 0
+    for s_, t in zip(mine, shared):
+        m = re.search(r"shared_copies:(\d+)", t)
+        if not m or int(m.group(1)) != 0:
+            nshared += 1
+            if nshared <= 3:
+                viols.append((s_, "C13:SharedClosureCopy", dict(script=s_, crate_trace=t,
+                              what="one copy of the user closure ran under both subscriptions")))
+    return viols, dict(projection_checks=len(solos), projection_failures=len(viols) - min(nshared, 3),
+                       closure_copy_scripts=len(mine), closure_copies_shared=nshared)
 
 
 def tracing_site_audit():
@@ -493,7 +512,16 @@ def chunked(l, n):
 
 def run_all(scripts, variant="plain"):
     """model traces, real traces, monitor results on the real traces (sharded over 16 cores)"""
-    chunks = chunked(scripts, 16)
+    # balanced shards (the model's cost grows faster than linearly with the length of a script, and the long
+    # histories of the corpus come first): longest scripts first, each to the lightest shard; results are put
+    # back in the order of `scripts`
+    nsh = 16
+    bins, load = [[] for _ in range(nsh)], [0] * nsh
+    for i in sorted(range(len(scripts)), key=lambda i: -len(scripts[i])):
+        b = load.index(min(load))
+        bins[b].append(i)
+        load[b] += len(scripts[i]) ** 2
+    chunks = [[scripts[i] for i in b] for b in bins]
 
     def work(ch):
         if not ch:
@@ -503,11 +531,10 @@ def run_all(scripts, variant="plain"):
         mon = monitor(ch, r)
         return m, r, mon
     parts = parallel_map(work, chunks)
-    model, real, mon = [], [], []
-    for m, r, mo in parts:
-        model += m
-        real += r
-        mon += mo
+    model, real, mon = [None] * len(scripts), [None] * len(scripts), [None] * len(scripts)
+    for b, (m, r, mo) in zip(bins, parts):
+        for i, a, c, d in zip(b, m, r, mo):
+            model[i], real[i], mon[i] = a, c, d
     return model, real, mon
 
 
@@ -893,6 +920,17 @@ def replay(prop, path):
     print("violations  :", " ".join(vs) or "-")
     bad = [v for v in vs if matches(v, spec.get("kinds", [prop]))
            and not suppressed_by(known, header_op(s), v, cl)]
+    if header_op(s) in ("map", "filter", "scan") and prop in ("C07", "C13"):
+        # the harness's own oracles about user closures: one call per datum received (C07), one copy per subscription (C13)
+        t = sh([BIN + "/cbharness-" + variant, "seq"], inp=s + "\n", env={"CB_EVALS": "1"}).stdout.strip()
+        ev, sc = re.search(r"evals:(\d+)", t), re.search(r"shared_copies:(\d+)", t)
+        want = len(re.findall(r"(?:^|[ :])>d0/", t))
+        print("closures    : %s calls for %d data received, %s copies shared between subscriptions"
+              % (ev.group(1) if ev else "?", want, sc.group(1) if sc else "?"))
+        if prop == "C07" and (not ev or int(ev.group(1)) != want):
+            bad.append("C07:ClosureCalls")
+        if prop == "C13" and (not sc or int(sc.group(1)) != 0):
+            bad.append("C13:SharedClosureCopy")
     if bad or m[0] != r:
         print("VIOLATION property=%s replay=%s" % (prop, path))
         return 1
@@ -1237,6 +1275,20 @@ def thread_check(prop, tier, seed, t0, syss, kinds, real_only=()):
                 l2 = re.sub(r"(f\d)=E\d+", r"\1=T", l2)
                 ro_lines.append(l2)
 
+    # free mode: every instrumented access is a scheduling point, including the talkback cells (slot.*), which
+    # the interleaving model does not have; random schedules, judged by the property checks on the crate's trace
+    free_lines = []
+    rnd = random.Random(seed * 31 + 5)
+    nfree = 600 if tier == "quick" else 12000
+    for sysname in syss:
+        cfgs = THREAD_EXPLORE[sysname]
+        for k in range(nfree):
+            cfg = cfgs[k % len(cfgs)]
+            nth = int(re.search(r"th=(\d+)", cfg).group(1))
+            sched = ",".join(str(rnd.randrange(nth)) for _ in range(rnd.randrange(8, 70)))
+            free_lines.append("%s free=1 sched=%s" % (cfg, sched))
+    ro_lines += free_lines
+
     def work(ch):
         if not ch:
             return [], [], []
@@ -1269,11 +1321,18 @@ def thread_check(prop, tier, seed, t0, syss, kinds, real_only=()):
 
     mism = [(a, m, h) for a, m, h in zip(lines, model, real) if m != h]
     viols = []
+    known_hits = {}
     for a, h, vs in list(zip(lines, real, mon)) + list(zip(ro_lines, ro_real, ro_mon)):
         bad = [v for v in vs if v.split(":")[0] in kinds]
         if bad:
-            viols.append((a, h, bad))
+            f = thread_known(known, a, h, bad)
+            if f:
+                known_hits[f["id"]] = f
+            else:
+                viols.append((a, h, bad))
     out, status = [], 0
+    for f in known_hits.values():
+        out.append("KNOWN-FINDING: property=%s %s" % (prop, f["what"]))
     for a, h, bad in viols[:3]:
         path = write_replay(prop, dict(kind="failing-history", property=prop, thread_script=a,
                                        violations=bad, trace_on_crate=h, seed=seed,
@@ -1313,7 +1372,7 @@ def thread_check(prop, tier, seed, t0, syss, kinds, real_only=()):
         traces_validated_against_impl=len(lines) - len(mism), correspondence_mismatches=len(mism),
         model_exhaustive_exploration=explored,
         real_exhaustive_schedule_prefixes=dict(length=L, runs=n_exh),
-        real_only_runs=len(ro_lines),
+        real_only_runs=len(ro_lines), free_schedule_runs_with_talkback_cell_scheduling_points=len(free_lines),
         source_files_differing_from_pinned_tree=changed, components_searched_deeper=hot,
         hooked_build_sequential_scripts=len(seq_scripts), hooked_build_sequential_mismatches=len(seq_mis),
         samples=[dict(script=a, crate_trace=h) for a, h in list(zip(lines, real))[:2] + list(zip(lines, real))[-2:]],
@@ -1324,6 +1383,35 @@ def thread_check(prop, tier, seed, t0, syss, kinds, real_only=()):
     for l in out:
         print(l)
     return status
+
+
+def thread_known(known, script, trace, bad):
+    """a violation of a thread run is a listed finding only if system, kinds and the class of the history match"""
+    for f in known["findings"]:
+        if f["op"] != "merge-threads" or not re.search(r"sys=merge\b", script) or "free=1" not in script:
+            continue
+        if not all(":".join(v.split(":")[:2]) in f["kinds"] for v in bad):
+            continue
+        if f["class"] == "GreetingDuringError" and greeting_during_error(trace):
+            return f
+    return None
+
+
+def greeting_during_error(trace):
+    """class of KF4: the terminal message is a member's Error, and every datum delivered after it comes from a member
+    that was never told to stop (it greeted while the failing sibling was disposing the others)"""
+    toks = trace.split()
+    term = next((i for i, t in enumerate(toks) if re.search(r":<dn0:(E\d+|T)$", t)), None)
+    if term is None or not re.search(r":<dn0:E\d+$", toks[term]):
+        return False
+    late = [(i, t) for i, t in enumerate(toks) if i > term and re.search(r":<dn0:D", t)]
+    if not late:
+        return False
+    for i, t in late:
+        member = re.match(r"t(\d+):", t).group(1)
+        if any(re.search(r":<up%s:(T|E\d+)$" % member, u) for u in toks[:i]):
+            return False
+    return True
 
 
 def treplay(prop, path):
@@ -1337,7 +1425,7 @@ def treplay(prop, path):
     print("model       :", m)
     print("crate trace :", h)
     print("violations  :", vs or "-")
-    if any(v.split(":")[0] == prop for v in vs.split()) or (m.partition(" || ")[0].strip() != h and "takemerge" not in a):
+    if any(v.split(":")[0] == prop for v in vs.split()) or (m.partition(" || ")[0].strip() != h and "takemerge" not in a and "free=1" not in a):
         print("VIOLATION property=%s replay=%s" % (prop, path))
         return 1
     return 0
